@@ -529,22 +529,11 @@ def run(tier):
                   "target_loops": _target_loops(rec)}
         slim = {"id": cid, "trans": r["trans"], "label": r["label"], "source": r["src"],
                 "after": r["after"]}
+        sdetail = {"witnesses": wit[:4], "n_failing_inputs": len(wit),
+                   "differing": sorted(detail["names"]),
+                   "all_zero_trip": detail["all_zero_trip"]}
         for cl in sorted({f[0] for f in fails}):
-            hit = None
-            for f in out.findings:
-                m = MATCHERS.get(f["match"])
-                if m and m(rec, cl, detail, f):
-                    hit = f["id"]
-                    break
-            sdetail = {"witnesses": wit[:4], "n_failing_inputs": len(wit),
-                       "differing": sorted(detail["names"]),
-                       "all_zero_trip": detail["all_zero_trip"]}
-            if hit:
-                out.known_hit[hit] = out.known_hit.get(hit, 0) + 1
-                out.known_examples.setdefault(hit, {"case": slim, "clause": cl,
-                                                    "detail": sdetail})
-            else:
-                out.violations.append({"case": slim, "clause": cl, "detail": sdetail})
+            out.classify(rec, cl, detail, slim, sdetail)
     crashes = [r for r in results if r["status"] == "crash"]
     cov = {"states": res.states, "transitions": res.transitions,
            "traces_validated_against_impl": len(accepted),
